@@ -314,3 +314,27 @@ type KSelf struct {
 	ID uint
 	V  CSV
 }
+
+// belongs-to over a nullable string key (C11: the text "nil" as a key)
+type Region struct {
+	Code string `gorm:"primaryKey"`
+	Name string
+}
+
+type Outlet struct {
+	ID         uint
+	RegionCode *string
+	Region     *Region `gorm:"foreignKey:RegionCode;references:Code"`
+}
+
+// many-to-many (join table synthesised with reflect.StructOf)
+type Lang struct {
+	ID   uint
+	Name string
+}
+
+type Speaker struct {
+	ID    uint
+	Name  string
+	Langs []Lang `gorm:"many2many:speaker_langs"`
+}
